@@ -22,7 +22,7 @@ def replies(rng):
         out.append(rpcfmt.finalize(p))
     # replies whose length needs both octets of frag_len (a GetKey-sized response, a large fault): 300 … 1300 octets, incl. k·256 and k·256 ± 1
     import dataclasses
-    for n in (256 - 24, 257 - 24, 300, 512 - 24, 767 - 24, 1300):
+    for n in (256 - 24, 257 - 24, 300, 512 - 24, 767 - 24, 1300, 2600, 5800):
         p = rpcfmt.rand_pdu(rng, 2)
         try:
             p = dataclasses.replace(p, stub_data=bytes(rng.randrange(256) for _ in range(n)), sec_trailer=None)
@@ -202,6 +202,10 @@ def run(ctx):
         for _ in range(200 if ctx.thorough else 40):
             cuts = sorted(set(rng.randrange(1, n) for _ in range(rng.randrange(3, 12))))
             parts.append([raw[a:b] for a, b in zip([0] + cuts, cuts + [n])])
+        # one octet per read (a reply trickling in): thousands of reads for one PDU
+        if n >= 256:
+            parts.append([raw[i:i + 1] for i in range(n)])
+            parts.append([raw[:16]] + [raw[i:i + 2] for i in range(16, n, 2)])
         # trailing bytes of a following PDU in the last chunk must be left alone
         parts.append([raw[:5], raw[5:] + b"\x05\x00\x0b\x03"])
         for chunks in parts:
